@@ -20,7 +20,7 @@ pub fn spec() -> Spec {
         replay,
         nshards: |_| 16,
         case_cap_s: |t| t.pick(600, 7200),
-        rule: "family '2d': one case per connected 2-dimensional symbol with curvature 0: every class of D-sets of size <= N x every branching vector over 1..6 (degenerate degrees included); family '3d': every admissible 3-dimensional symbol (spherical tiles and vertex figures by the reference model, branching in {1,2,3,4,6}) on every class of D-sets of size <= M, each under every relabeling (size <= 3; systematic family above) and its dual; family 'corpus': the 20 known-euclidean symbols of the repository's tests under relabelings and dual. Oracle 2d: a result exists, covers the input (searched morphism with equal fibres), is oriented, all v = 1 and s0(d) != s2(d), curvature 0, H1 = Z^2 by textbook presentation + invariant factors. Oracle 3d: a returned cover is oriented, branch-free, covers the input, H1 = [0,0,0], sheet number over the oriented cover in {1,2,3,4,6,8,12,24}; Some/None and sheet number equal across relabelings and the dual; corpus symbols return Some. Non-trivial = a cover is returned.",
+        rule: "family '2d': one case per connected 2-dimensional symbol with curvature 0: every class of D-sets of size <= N x every branching vector over 1..6 (degenerate degrees included); family '3d': every admissible 3-dimensional symbol (spherical tiles and vertex figures by the reference model, branching in {1,2,3,4,6}) on every class of D-sets of size <= M, each under every relabeling (size <= 3; systematic family above) and its dual; family 'corpus': the 20 known-euclidean symbols of the repository's tests under relabelings and dual, and every [quick: a spread of the] relabeling of those with 4-6 chambers and of their duals (existence and sheet number). Oracle 2d: a result exists, covers the input (searched morphism with equal fibres), is oriented, all v = 1 and s0(d) != s2(d), curvature 0, H1 = Z^2 by textbook presentation + invariant factors. Oracle 3d: a returned cover is oriented, branch-free, covers the input, H1 = [0,0,0], sheet number over the oriented cover in {1,2,3,4,6,8,12,24}; Some/None and sheet number equal across relabelings and the dual; corpus symbols return Some. Non-trivial = a cover is returned.",
         assumptions: &["H1 is computed by the reference model (textbook presentation + i128 elimination with overflow detection); an overflow is reported as 'undecided' in the counters, never as a verdict"],
         bounds: |t| json!({"dim2_max_size": t.pick(5, 7), "dim2_V": [1,2,3,4,5,6], "dim3_max_size": t.pick(3, 4), "dim3_V": [1,2,3,4,6], "prism_family": {"base_2d_max_size": t.pick(4, 5)}, "cover_family": {"sheets": t.pick(4, 5), "max_chambers": t.pick(12, 15), "renumberings_per_cover": t.pick(json!("2, existence and sheet number only"), json!("5 + dual; the returned cover validated in full for the numbering covers() produces, existence and sheet number for the others"))}}),
     }
@@ -268,7 +268,49 @@ fn run(ctx: &mut Ctx) {
         if ctx.take() {
             check_3d(ctx, "corpus", &s, true);
         }
-    }    cover_family(ctx);
+    }
+    // every [quick: a spread of the] relabeling of the corpus symbols of 4-6 chambers and of their duals: a cover
+    // is found and its sheet number over the oriented cover is the one found for the symbol as written
+    for (_, s) in corpus() {
+        if s.n < 4 {
+            continue; // all relabelings of the smaller ones are part of check_3d
+        }
+        let ps = perms(s.n);
+        let step = if tier.is_thorough() { 1 } else { match s.n { 4 => 1, 5 => 3, _ => 11 } };
+        let mut sheets0: Option<Option<usize>> = None;
+        for (tag, b) in [("relabeling", s.clone()), ("relabeling of the dual", s.dual())] {
+            for p in ps.iter().step_by(step) {
+                if !ctx.take() {
+                    continue;
+                }
+                if sheets0.is_none() {
+                    sheets0 = Some(ptc_sheets(ctx, &s).ok().flatten());
+                }
+                let t = b.relabel(p);
+                let vcase = json!({"family": "corpus-relabelings", "sym": rs_to_json(&s), "variant": tag, "variant_sym": rs_to_json(&t)});
+                ctx.announce(&vcase);
+                ctx.add("corpus_relabelings", 1);
+                ctx.count(true);
+                match ptc_sheets(ctx, &t) {
+                    Err(e) => {
+                        ctx.violation("pseudo-toroidal-cover", vcase, e, s.n as u64);
+                        return;
+                    }
+                    Ok(None) => {
+                        ctx.violation("corpus", vcase, format!("no pseudo-toroidal cover for a {} of a known-euclidean symbol", tag), s.n as u64);
+                        return;
+                    }
+                    Ok(sh) => {
+                        if Some(sh) != sheets0 {
+                            ctx.violation("not-invariant", vcase, format!("sheet number over the oriented cover: {:?} for the symbol, {:?} for its {}", sheets0, sh, tag), s.n as u64);
+                            return;
+                        }
+                    }
+                }
+            }
+        }
+    }
+    cover_family(ctx);
     if ctx.nviolations() == 0 {
         prism_family(ctx);
     }
